@@ -35,6 +35,12 @@ func genC19(r *core.Rand, env *core.Env, run int) *Scenario {
 	ns := 1 + r.Intn(4)
 	np := 1 + r.Intn(3)
 	disconnects := r.Bool(0.4)
+	stalls := r.Bool(0.25)
+	if stalls {
+		// a stalled subscriber may hold a publisher up to the server's write
+		// deadline, never for ever: leave enough simulated time for that
+		sc.Knobs.IdleBudget = 120
+	}
 	for i := 0; i < ns; i++ {
 		p := ClientProg{Name: fmt.Sprintf("s%d", i), Role: "subscriber", Pipeline: 1, WriteYield: true}
 		a := bs("subscribe")
@@ -46,7 +52,11 @@ func genC19(r *core.Rand, env *core.Env, run int) *Scenario {
 			a = append(a, B(perm[j]))
 		}
 		p.Steps = append(p.Steps, Step{Kind: "cmd", Args: a})
-		if disconnects && r.Bool(0.4) {
+		if stalls && i == 0 {
+			// stops reading after its subscription was confirmed; tiny socket buffer
+			p.OutLimit = 64
+			p.Steps = append(p.Steps, Step{Kind: "stall"})
+		} else if disconnects && r.Bool(0.4) {
 			// leave while publishers are still active
 			for w := 0; w < r.Intn(3); w++ {
 				p.Steps = append(p.Steps, Step{Kind: "wait"})
@@ -114,10 +124,12 @@ func judgeC19(sc *Scenario, rr *RunResult, env *core.Env) (string, string) {
 		}
 		subscribed := map[string]bool{}
 		var subDone int64 = -1
-		if len(c.ops) > 0 && c.ops[0].Done {
-			subDone = c.ops[0].ReturnSeq
+		if len(c.ops) > 0 {
 			for _, a := range c.ops[0].Args[1:] {
 				subscribed[string(a)] = true
+			}
+			if c.ops[0].Done {
+				subDone = c.ops[0].ReturnSeq
 			}
 		}
 		seen := map[string]bool{}
@@ -158,7 +170,8 @@ func judgeC19(sc *Scenario, rr *RunResult, env *core.Env) (string, string) {
 		}
 		for i := range pubs {
 			p := &pubs[i]
-			if !p.done || !subscribed[p.ch] || subDone < 0 {
+			if !p.done || !subscribed[p.ch] || subDone < 0 || c.prog.OutLimit > 0 {
+				// (a reader that stopped reading may legitimately be dropped)
 				continue
 			}
 			if subDone < p.invoke && gone > p.ret && !seen[p.ch+"\x00"+p.payload] {
